@@ -183,6 +183,19 @@ theorem castsDominate_fails : ¬ castsDominate_statement false := by
   revert this
   decide
 
+/-! ## a global read through a subview -/
+
+/-- **The tiles of a re-laid-out global are laid out like the subview's tile**: in a dimension that got the extra
+outermost stride `⟨cur, rem⟩`, element `i` of tile number `q` sits at `cur * q` + (address of `i` under the tile
+layout) - a tile-aligned subview of the transformed global has exactly the layout its new result type declares, up to
+the base address of the tile. (That different tiles do not overlap - `cur` at least the extent of a tile - is checked on
+the real output by the oracle, not proved.) -/
+theorem subviewGlobal_tile_addr (cur rem : Nat) (t : List SStride) (ht : ∀ x ∈ t, 0 < x.bound) (q i : Nat)
+    (hi : i < prodB t) : addrDim (⟨cur, rem⟩ :: t) (prodB t * q + i) = cur * q + addrDim t i :=
+  outerTile_addrDim cur rem t ht q i hi
+
+example : subviewGlobalLayout [[⟨8, 4⟩], [⟨1, 5⟩]] [32, 5] = [[⟨32, 8⟩, ⟨8, 4⟩], [⟨1, 5⟩]] := by decide
+
 /-! ## run-time shape of the stand-in buffer -/
 
 /-- **The stand-in buffer has the run-time shape of the source**: for every shape of the cast type (any rank, any mix
